@@ -4,7 +4,7 @@ from __future__ import annotations
 from hypothesis import strategies as st
 
 from .. import gen
-from ..cells import build_any, cells, cells_of_desc, cells_of_str, show
+from ..cells import TaggedStr, as_subclass, build_any, cells, cells_of_desc, cells_of_str, show
 from ..common import Res, call, exc_str, hyp_campaign
 
 PROP = "C09"
@@ -23,6 +23,9 @@ def run_case(case):
     res = Res()
     desc = case["desc"]
     f = build_any(desc, case.get("build", "chunks"), case.get("obs", 0))
+    if case.get("sub") in (1, 3):
+        f = as_subclass(f)  # the receiver is an instance of an application's FmtStr subclass: still a FmtStr
+        res.label("receiver_is_subclass_instance")
     if case.get("obs") or case.get("build") in gen.DERIVED_BUILDS:
         res.label("receiver_with_history")
     base = cells_of_desc(desc)
@@ -41,12 +44,17 @@ def run_case(case):
         res.label("new_has_the_text_it_replaces")
     elif "new_str" in case:
         new, newc = case["new_str"], cells_of_str(case["new_str"])
+        if case.get("sub") in (2, 3):
+            new = TaggedStr(new)  # a str subclass instance is a str: its characters go in
         res.label("new_is_str")
     else:
         new, newc = build_any(case["new_desc"], case.get("new_build", "chunks"), case.get("new_obs", 0)), cells_of_desc(case["new_desc"])
         res.label("new_is_fmtstr")
         if not case["new_desc"]:
             res.label("new_zero_runs")
+    if case.get("sub") in (2, 3) and not isinstance(new, str):
+        new = as_subclass(new)
+        res.label("new_is_subclass_instance")
     if not newc:
         res.label("empty_new")
     n = len(base)
@@ -96,7 +104,7 @@ def run_case(case):
         elif len(got) != len(exp):
             res.viol("splice_len_wrong", start=s, end=e, desc=desc, got=len(got), expected=len(exp))
     evals += 1
-    got, err = call(lambda: f.append(new))
+    got, err = call(lambda: f.append(new) if len(newc) % 2 else f.append(string=new))
     if err is not None:
         res.viol("append_raised", error=exc_str(err), desc=desc)
     elif cells(got) != base + newc:
@@ -107,15 +115,18 @@ def run_case(case):
     return res
 
 
+SUB = st.sampled_from([0, 0, 0, 0, 0, 1, 2, 3])
+
+
 def strategy():
     d = gen.desc_sized(alphabet="abcde 31m[", max_runs=5, max_len=3, big_runs=24, big_len=60)
     same = st.fixed_dictionaries({"desc": d, "same_text": st.tuples(st.integers(0, 12), st.integers(1, 4),
-                                  st.one_of(st.none(), st.tuples(gen.atts(), gen.atts()).map(list))).map(list), "build": gen.BUILDS, "obs": gen.OBS})
+                                  st.one_of(st.none(), st.tuples(gen.atts(), gen.atts()).map(list))).map(list), "build": gen.BUILDS, "obs": gen.OBS, "sub": SUB})
     return st.one_of(
         same,
-        st.fixed_dictionaries({"desc": d, "new_str": st.one_of(gen.text("XY", 0, 2), gen.plain_str(3)), "build": gen.BUILDS, "obs": gen.OBS}),
+        st.fixed_dictionaries({"desc": d, "new_str": st.one_of(gen.text("XY", 0, 2), gen.plain_str(3)), "build": gen.BUILDS, "obs": gen.OBS, "sub": SUB}),
         st.fixed_dictionaries({"desc": d, "new_desc": gen.desc_sized(alphabet="XY", max_runs=3, max_len=2, big_runs=12, big_len=40),
-                               "build": gen.BUILDS, "obs": gen.OBS, "new_build": gen.BUILDS, "new_obs": gen.OBS}),
+                               "build": gen.BUILDS, "obs": gen.OBS, "new_build": gen.BUILDS, "new_obs": gen.OBS, "sub": SUB}),
     )
 
 
